@@ -97,8 +97,8 @@ Definition tag_peek (b : N) (v1 : list N) : M tag :=
 
 (* Tag::take_from_if: peek (request + slice), advance only on a match *)
 Definition tag_take_from_if (e : tag) : M (option bool) :=
-  tick ;;; s <- get ;;
-  match visible s with
+  tick ;;; v <- get_visible ;;
+  match v with
   | [] => ret None
   | b :: v1 =>
     t <- tag_peek b v1 ;;
